@@ -373,6 +373,16 @@ def rotationRel : List String :=
 def rotationWrites (pre : String) : List (String × String) :=
   (rotationRel.map fun r => ("put", pre ++ r)) ++ (if pre == "" then [("delete", "core/master")] else [])
 
+/-- the same rotation with `backup = true` (PGP-encrypted shares kept for retrieval): one more record,
+`core/unseal-keys-backup`, under the namespace's prefix like the others (repair F92) -/
+def rotationWritesBackup (pre : String) : List (String × String) :=
+  rotationWrites pre ++ [("put", pre ++ "core/unseal-keys-backup")]
+
+/-- NOT the code (finding F92, repaired): the backup written through the namespace's barrier under the bare key, i.e.
+over the ROOT namespace's record -/
+def rotationWritesBackupBare (pre : String) : List (String × String) :=
+  rotationWrites pre ++ [("put", "core/unseal-keys-backup")]
+
 /-- NOT the code (findings F49/F50, repaired): the seal-key copy written to the bare path and the legacy entry deleted
 whatever the namespace -/
 def rotationWritesUnprefixed (pre : String) : List (String × String) :=
